@@ -236,10 +236,6 @@ Definition spec_2in13bc : pspec :=
      [OWaitIdle];
      [OSleep; OWakeUp];
      [OWakeUp];
-     [OUpdatePartial 16 8 4 64 2];
-     [OUpdatePartial 1 0 0 8 1];
-     [OUpdatePartial 1 96 211 8 1];
-     [OUpdatePartial 3 16 209 8 3];
      [OUpdateColor 2756 2756];
      [OUpdateAchromatic 2756; OUpdateChromatic 2756];
      [OSetBorder 0];
@@ -487,10 +483,6 @@ Definition spec_2in9bc : pspec :=
      [OWaitIdle];
      [OSleep; OWakeUp];
      [OWakeUp];
-     [OUpdatePartial 16 8 4 64 2];
-     [OUpdatePartial 1 0 0 8 1];
-     [OUpdatePartial 1 120 295 8 1];
-     [OUpdatePartial 3 16 293 8 3];
      [OUpdateColor 4736 4736];
      [OUpdateAchromatic 4736; OUpdateChromatic 4736];
      [OSetBorder 0];
